@@ -243,3 +243,36 @@ Theorem rollback_partial ord s u0 es k st cur done :
   ms_pending st = [] -> Forall (fun m => m = MSave) done ->
   rollback ord (length u0) st = Some s.
 Proof. intros Hw. apply rollback_between_actions. apply Inv_init. exact Hw. Qed.
+
+(* ---------------------------------------------------------------------------------------------------------- *)
+(* complete execution of the events (get_formula_value: evaluation finished or raised, then the finally clause) *)
+Lemma state_after_pending ord es : forall st st',
+  state_after ord st es = Some st' -> exists pa, ms_pending st' = ms_pending st ++ pa.
+Proof.
+  induction es as [|e es IH]; intros st st' H; simpl in H.
+  - injection H as <-. exists []. rewrite app_nil_r. reflexivity.
+  - destruct (exec_all st (event_steps ord (ms_doc st) e)) as [st1|] eqn:E; [|discriminate].
+    destruct (exec_all_pending _ _ _ E) as (p1 & H1). destruct (IH _ _ H) as (p2 & H2).
+    exists (p1 ++ p2). rewrite H2, H1, app_assoc. reflexivity.
+Qed.
+
+Lemma state_after_inv ord s0 u0 es : forall st st',
+  Inv ord s0 u0 st -> Forall no_replace_ev es -> state_after ord st es = Some st' -> ms_pending st' = [] ->
+  Inv ord s0 u0 st'.
+Proof.
+  induction es as [|e es IH]; intros st st' HI Hnr H Hp; simpl in H.
+  - injection H as <-. exact HI.
+  - inversion Hnr as [|? ? Hnr1 Hnr2]; subst.
+    destruct (exec_all st (event_steps ord (ms_doc st) e)) as [st1|] eqn:E; [|discriminate].
+    destruct (state_after_pending _ _ _ _ H) as (p2 & Hp2). rewrite Hp in Hp2. symmetry in Hp2. apply app_eq_nil in Hp2 as [Hp1 _].
+    destruct (exec_all_pending _ _ _ E) as (p1 & Hp1'). rewrite Hp1 in Hp1'. symmetry in Hp1'. apply app_eq_nil in Hp1' as [Hp0 _].
+    eapply IH; [eapply event_complete; eauto|exact Hnr2|exact H|exact Hp].
+Qed.
+
+Theorem rollback_after_all ord s u0 es st :
+  wf s -> Forall no_replace_ev es -> state_after ord (init_state s u0) es = Some st -> ms_pending st = [] ->
+  rollback ord (length u0) st = Some s.
+Proof.
+  intros Hw Hnr H Hp. pose proof (state_after_inv ord s u0 es _ _ (Inv_init ord s u0 Hw) Hnr H Hp) as HI.
+  apply (rollback_inv ord s u0 st st HI); auto. left. exact (proj1 (proj2 HI)).
+Qed.
